@@ -203,7 +203,27 @@ class Op:
     ty: Optional[Ty] = None
 
 
+def shortest_decimal(d: float, single: bool) -> Fraction:
+    """the shortest decimal literal that round-trips at the given precision, as an exact rational.
+    Both engines read literals this way, so the rounding of a literal to its precision is not judged."""
+    if d == 0 or d != d or d in (float("inf"), float("-inf")):
+        return Fraction(d) if d == d and abs(d) != float("inf") else Fraction(0)
+    if not single:
+        return Fraction(repr(d))
+    want = struct.unpack("<f", struct.pack("<f", d))[0]
+    for p in range(1, 10):
+        txt = "%.*g" % (p, want)
+        if struct.unpack("<f", struct.pack("<f", float(txt)))[0] == want:
+            return Fraction(txt)
+    return Fraction(want)
+
+
 def parse_fp(tok: str, ty: Ty) -> Fraction:
+    single = ty is not None and (ty.k == "float" or (ty.k == "vec" and ty.elem.k == "float"))
+    return shortest_decimal(float(_parse_fp_exact(tok, ty)), single)
+
+
+def _parse_fp_exact(tok: str, ty: Ty) -> Fraction:
     if tok.startswith("0x"):
         body = tok[2:]
         if body[0] in "KLMHR":
